@@ -161,8 +161,10 @@ class Run:
     def oblige(self, name, goal, kind="post", cls="input", expect="unsat", meta=None, props=None,
                hyps=(), view="smt", replay=None, assuming=()):
         goal = sbool(goal)
+        if getattr(self, "quiet", 0) and kind == "call-pre":
+            return None  # lazily re-evaluated element of an already checked mapped sequence
         full = (self.scope + ":" if self.scope else "") + kind + ":" + name
-        pc = list(self.pc) + [sbool(a).z() for a in assuming]
+        pc = list(self.pc) + [sbool(a).z() for a in assuming] + [sbool(a).z() for a in getattr(self, "ctx_assuming", [])]
         ob = Obligation(full, kind, goal.z(), pc, props=props or self.props, cls=cls,
                         expect=expect, meta=dict(meta or {}), where=self.where(),
                         hyps=list(hyps) + list(self.facts), view=view, replay=replay)
